@@ -10,6 +10,6 @@ NoFail == [n \in Node |-> "none"]
 Empty == [n \in Node |-> {}]
 Disj == {p \in (SUBSET Node) \X (SUBSET Node) : p[1] \cap p[2] = {}}
 NoSelfGraphs == {x \in [Node -> SUBSET Node] : \A n \in Node : n \notin x[n]}
-Fam == {[single |-> Empty, selfOpt |-> so, slice |-> g, sliceOpt |-> so, lazy |-> lz, wrap |-> NoWrap, fail |-> NoFail, procs |-> <<>>, mode |-> [n \in Node |-> "normal"], rorder |-> <<>>] :
+Fam == {[single |-> Empty, selfOpt |-> so, slice |-> g, sliceOpt |-> so, lazy |-> lz, wrap |-> NoWrap, fail |-> NoFail, procs |-> <<>>, mode |-> [n \in Node |-> "normal"], rorder |-> <<>>, ilook |-> NoLook] :
           g \in [Node -> SUBSET Node], so \in {AllFalse, AllTrue}, lz \in SUBSET Node}
 =============================================================================
